@@ -3,6 +3,7 @@ package h1harness
 import (
 	"net"
 	"net/http"
+	"net/url"
 	"sync"
 	"time"
 
@@ -19,6 +20,9 @@ type EnvOpts struct {
 	ReqMod  martian.RequestModifier
 	Timeout time.Duration // proxy.SetTimeout (0: keep the default of 5 minutes)
 	MITM    *mitm.Config  // non-nil: proxy.SetMITM (CONNECT requests are intercepted)
+	// Downstream (URL, optional): proxy.SetDownstreamProxy. The in-process origin then plays the downstream
+	// proxy: every upstream dial goes to it whatever address is dialled.
+	Downstream string
 	// Dial is consulted for the n-th dial (0-based) of the proxy's transport to addr; a non-nil error is
 	// returned to the transport (e.g. Refused(addr)); nil connects to the origin.
 	Dial func(n int, addr string) error
@@ -78,6 +82,13 @@ func NewEnv(opts EnvOpts, origin *Origin) (*Env, error) {
 	}
 	if opts.MITM != nil {
 		p.SetMITM(opts.MITM)
+	}
+	if opts.Downstream != "" {
+		u, err := url.Parse(opts.Downstream)
+		if err != nil {
+			return nil, err
+		}
+		p.SetDownstreamProxy(u)
 	}
 	p.SetDial(e.dial)
 	e.Proxy = p
